@@ -22,6 +22,7 @@ from ..round_flow import KERNEL_MODULES
 from ..guard_bits import check_guard_bits, GuardScan
 
 LIBMPC = 'mpmath/libmp/libmpc.py'
+LIBELE = 'mpmath/libmp/libelefun.py'
 # the complex exponential/trigonometric family: every member (10 of 10 on the pinned tree) hands an
 # argument with exactly zero imaginary part to the real kernel, which does the careful argument
 # reduction; the general formulas cancel catastrophically near the real zeros/poles
@@ -144,8 +145,33 @@ def run(run, ix, tier):
     # ---- B-R4i: the sticky/exact-root idioms that make sqrt of a perfect square exact (rule of C02)
     from ..report import SubRun
     from . import c02
-    run.rule('B-R4i', floor=3, desc='exact-remainder idioms of division and square root')
+    run.rule('B-R4i', floor=4, desc='exact-remainder idioms of division and square root')
     c02.check_sticky_idioms(SubRun(run, keep=('B-R4i',)), ix)
+    # the exactness nudge of mpf_nthroot: for the downward modes the radicand (not the root) is incremented
+    # by one unit before nthroot_fixed, which lifts a perfect power above its exact root before truncation
+    f = ix.func(LIBELE, 'mpf_nthroot')
+    calls = [c for c in _walk_own(f.node) if isinstance(c, ast.Call) and norm(c.func) == 'nthroot_fixed']
+    nudges = [x.targets[0].id for x in _walk_own(f.node) if isinstance(x, ast.Assign) and isinstance(x.targets[0], ast.Name)
+              and isinstance(x.value, ast.Constant) and x.value.value == 1 and
+              isinstance(getattr(x, '_parent', None), ast.If) and 'rnd' in norm(x._parent.test)]
+    if len(calls) != 1 or not nudges:
+        raise AnalysisError('mpf_nthroot: root call / rounding nudge not found')
+    nm = nudges[0]
+    arg = calls[0].args[0]
+    in_radicand = isinstance(arg, ast.BinOp) and isinstance(arg.op, ast.Add) and nm in (norm(arg.left), norm(arg.right))
+    elsewhere = [x for x in _walk_own(f.node) if isinstance(x, ast.Name) and x.id == nm and isinstance(x.ctx, ast.Load)
+                 and not any(x is y for y in ast.walk(calls[0]))]
+    if in_radicand and not elsewhere:
+        run.ok('B-R4i', 'mpf_nthroot: the nudge %s is added to the radicand inside nthroot_fixed(...)' % nm)
+    else:
+        st = calls[0]
+        while not isinstance(st, ast.stmt):
+            st = st._parent
+        run.fail(Finding('B-R4i', LIBELE, f.qualname, norm(st),
+                         'the exactness nudge `%s` is not applied to the radicand (it is %s): one unit on the computed root '
+                         'does not cover the truncation of the mantissa and the floor errors of the Newton iteration, so '
+                         'roots of perfect powers come out one ulp low in the downward modes'
+                         % (nm, 'used at `%s`' % norm(elsewhere[0]._parent, 50) if elsewhere else 'missing'), line=st.lineno))
     # ---- B-R10: guard bits must follow the size of an amplifying multiplier
     from .kernel_rules import check_amplified_error
     run.rule('B-R10', floor=6, desc='amplified intermediates carry multiplier-dependent guard bits')
